@@ -59,6 +59,11 @@ CHECKS.update({
         text="Exploration. For generated queries (C04 generator plus property-path and aggregate queries) and data: permuting the triple patterns of every BGP, swapping adjacent join operands and UNION branches, renaming variables by a bijection, writing IRIs through PREFIX/BASE declarations (including two prefixes for one namespace), initBindings vs an added VALUES row, one prepared query evaluated on A, B, A, A, B against fresh parses (also when an evaluation raises), and the same data in Memory / SimpleMemory / AuditableStore(Memory) / a ReadOnlyGraphAggregate over a random disjoint partition must all give the same multiset of solutions. No reference evaluator is involved. Three listed findings (operand swap under binding push-down, path patterns repeated per member of an aggregate, initBindings seen by MINUS) are carved out by input predicates.",
         note="Consistently wrong answers are invisible to this check by construction (that is C04's job).",
         ref="DESIGN.md §3 C15"),
+    "C05": dict(
+        technique="runtime monitoring: documents spelled by independent randomised writers parsed by rdflib and judged against the graph known by construction (own isomorphism); rdflib's N-Triples/N-Quads output judged by a strict W3C-grammar reader, XML/JSON output by stdlib parsers",
+        text="Exploration. A content (statements with nested [] and () structures, hostile local names, strings, language tags, non-canonical numerics, blank node labels over the whole label grammar) is rendered by the harness's own writers for N-Triples, N-Quads, Turtle, TriG, RDF/XML and JSON-LD, choosing at random among the alternatives each grammar allows (white space, comments, LF/CRLF/CR, \\u/\\U/ECHAR, four quotings, PN_LOCAL escapes, @prefix/PREFIX with mid-document re-declaration, @base/BASE and every relative-reference form, ';' ';;' ',' '[]' '()', shorthand literals, GRAPH keyword, RDF/XML typed nodes, property attributes, rdf:ID, rdf:li, parseType Resource/Collection, xml:lang inheritance and reset, xml:base, CDATA, character references; JSON-LD expanded or compacted with prefixes, @vocab, @base, default @language, typed/@list/@set/@language terms, @reverse, named @graph); rdflib must read exactly the constructed graph/dataset, and ~15% of documents are also handed over as bytes, BytesIO/StringIO (file= and source=), open file, Path, path string, location and InputSource and must give the same graph. Second lane: nt/nquads output of generated graphs/datasets must be accepted by rv/model/ntref.py (anchored regex transcription of the W3C grammars, self-tested at setup on the W3C positive and negative syntax suites) and denote an isomorphic graph there; xml/pretty-xml/trix/json-ld output must be accepted by xml.dom.minidom / json.loads.",
+        note="One listed finding (pretty-xml rdf:type object that is not an XML name) is carved out by an input predicate. Graphs for the XML writers hold only XML 1.0 characters and QName-able predicates (what RDF/XML can express).",
+        ref="DESIGN.md §3 C05"),
     "C06": dict(
         technique="runtime monitoring: Dataset serialise->parse round trip judged by dataset isomorphism (one bnode bijection over nodes and graph names); RDF Patch diff applied and compared",
         text="Exploration. Generated datasets (0-4 IRI- or bnode-named graphs, triples shared by several graphs, bnodes shared across graphs and used as graph names, empty/non-empty default graph, default_union on/off) are serialised as N-Quads, TriG, TriX, JSON-LD, HexTuples and RDF Patch(add) and parsed into an empty Dataset; the quad sets must be isomorphic with the default graph mapped to the default graph; serialising must not change the source. Patch lane: the diff between two related ground datasets (superset, subset, overlap, equal, disjoint, one quad moved) applied to the first must give the second. Listed findings (JSON-LD with bnode-named graphs / unrooted cycles / malformed lists, TriG+TriX bnode graph name used as node, Turtle numeric shorthand in TriG) are carved out by input predicates.",
